@@ -4,7 +4,12 @@ PLAN = {
     'C01': dict(level='proof', engines=[]),
     'C02': dict(level='proof', engines=[]),
     'C03': dict(level='proof', engines=['bundles']),
-    'C04': dict(level='proof', engines=['keynative']),
+    'C04': dict(level='proof', engines=['keynative', 'matchnative']),
+    'C05': dict(level='other', engines=['matchnative'],
+                explanation='The matcher bodies (Hopcroft-Karp, hit-window search, note-matching matrices) are not verified deductively here: they are '
+                            'checked by exhaustive small-scope enumeration against brute-force maximum matching (bounded stand-in, the property\'s own '
+                            'quantifier: all graphs up to 4x5). Their contract "valid maximum matching of the stated predicate" is what every caller is '
+                            'verified against deductively (see C01/C04/C06/C07/C08 evidence).'),
     'C06': dict(level='proof', engines=[]),
     'C07': dict(level='proof', engines=[]),
     'C08': dict(level='proof', engines=[]),
